@@ -7,6 +7,14 @@ ids = [p["id"] for p in props]
 
 # id -> (technique, level text, level note, design ref)
 CLAIMED = {
+ "C06": ("proptest-generated encrypted documents produced by an independent implementation of the standard security handler; oracle = known plaintext and password acceptance/rejection",
+         "Generated-input search over (variant R2-R6, key length, user/owner password, P, ID, EncryptMetadata, object/generation numbers, string/stream lengths incl. empty and block-aligned, xref kind, encrypted object streams): with either password every string and stream must equal the plaintext the harness encrypted, wrong passwords must give InvalidPassword, the encryption dictionary's own strings and an unencrypted metadata stream must come back as written.",
+         "MD5, SHA-2 and AES block primitives are trusted; key schedules, RC4 and Algorithm 2.B are implemented independently in harness/src/engine/crypt.rs and anchored on the corpus's password-protected files",
+         "DESIGN.md §4 C06"),
+ "C08": ("proptest-generated operation sequences (round-trip oracle under an independent structural description) and the 73-operator table with generated operands spelled by the randomised printer (oracle = my table of expansions)",
+         "Generated-input search: (a) sequences over all Op variants biased towards the shorthand-triggering adjacencies, serialised and parsed back; (b) every operator of Table A.1 alone and in sequences of up to 6 with well-formed operands and random conformant spelling, compared with the specification's expansion, including the tracked current point for v and absence of operand leaks.",
+         "the expansion table is my reading of ISO 32000-1 Table A.1; Integer and Real operands of equal value are identified",
+         "DESIGN.md §4 C08, Appendix B"),
  "C05": ("proptest-generated (data, filter chain, parameters) encoded by independent specification encoders; round-trip oracle; exhaustive enumeration of small code spaces; corruption fuzzing for no-panic",
          "Generated-input search: data up to 64 KiB through chains of 1-3 filters with per-filter parameters (PNG 10-15 / TIFF 2 predictors, colours 1-4, bpc 1/2/4/8/16, columns 1-64, LZW EarlyChange 0/1 with clear codes, zlib and raw deflate), decoded via enc::decode and via Stream::data on a real stream object; truncation/damage must not panic; exhaustive hex pairs, run-length headers, PNG filter functions and ASCII85 groups (2^24 sample quick, all 2^32 thorough).",
          "the encoders in harness/src/engine/filters.rs are my reading of ISO 32000-1 7.4; flate2 provides deflate",
